@@ -88,6 +88,8 @@ const (
 	c07G0 // ghost (never inserted): hash B
 	c07G1 // ghost: shares the low 30 bits, fourth value of the top 2 bits
 	c07G2 // ghost: unrelated hash
+	c07A3 // a3, a4: two more keys with hash B, so that a collision node grows beyond the
+	c07A4 // capacity it was allocated with (sibling versions derived from one 3-entry node)
 	c07NNamed
 )
 
@@ -114,6 +116,8 @@ func init() {
 	set(c07P3, "p3", c07H(1, 2, 3, 9, 1, 1, 0))
 	set(c07P4, "p4", c07H(1, 2, 3, 4, 9, 30, 3))
 	set(c07G0, "g0", b)
+	set(c07A3, "a3", b)
+	set(c07A4, "a4", b)
 	set(c07G1, "g1", c07H(1, 2, 3, 4, 5, 6, 0))
 	set(c07G2, "g2", c07H(31, 30, 29, 28, 27, 26, 3))
 	for ri, r := range c07FillLevels {
@@ -914,6 +918,10 @@ func c07Scenarios(c *vk.Ctx) []c07Scenario {
 	} else {
 		// E1: shared hash prefixes of every length; E2: collision groups at the deepest level
 		scs = append(scs, c07Scenario{name: "E1", bases: empty, ops: c07KV([]int{c07A0, c07A1, c07P1, c07P2, c07P5, c07P6, c07D0, c07NilID}, 1, 2, 0)})
+		// E4: one collision group of five keys: collision nodes of 2..5 entries, every order of
+		// insertion and removal, and - because BFS derives several successors from the same
+		// version - sibling versions grown from one shared collision node.
+		scs = append(scs, c07Scenario{name: "E4", bases: empty, ops: c07KV([]int{c07A0, c07A1, c07A2, c07A3, c07A4, c07D0}, 1, 2, 0)})
 		scs = append(scs, c07Scenario{name: "E2", bases: empty, ops: c07KV([]int{c07A0, c07A1, c07A2, c07P6, c07C6, c07Q6, c07NilID}, 1, 2, 0)})
 	}
 	// E3: the remaining prefix lengths
